@@ -1,5 +1,5 @@
 // govc:pkg .
-// govc:bound second test: 20 feeds of one query with FIVE aggregates over nested-field expressions that share their first field (sum(n.x), sum(n.x + n.y), max(n.x * 2), min(n.y), nth_value(n.x, 2)); third test: merge_agg over three batches of five values (float64 needing more than float32 precision, large integers, text with a comma, float32, bool); first test: 8 aggregate SELECT items (sum, avg, min, max, count(col), count(*), first_value, last_value, collect, expression arguments) x 30 (thorough: 120) random feeds of 18 rows over 3 groups with NULL and missing inputs, two consecutive batches per group (state must not leak)
+// govc:bound second test: 20 feeds of one query with FIVE aggregates over nested-field expressions that share their first field (sum(n.x), sum(n.x + n.y), max(n.x * 2), min(n.y), nth_value(n.x, 2)); third test: merge_agg over three batches of five values (float64 needing more than float32 precision, large integers, text with a comma, float32, bool); first test: 9 aggregate SELECT items (incl. a CASE argument that maps NULL / missing to a number) (sum, avg, min, max, count(col), count(*), first_value, last_value, collect, expression arguments) x 30 (thorough: 120) random feeds of 18 rows over 3 groups with NULL and missing inputs, two consecutive batches per group (state must not leak)
 // Bounded stand-in (NOT a proof) for the wiring around the accumulators under contract (NULL skipping and numeric
 // coercion in GroupAggregator.Add, expression arguments evaluated per row, reset between batches, partitioning by key).
 package streamsql
@@ -34,6 +34,16 @@ func govcAggNums(vs []any) []float64 {
 
 func govcAggItems() []govcAggItem {
 	return []govcAggItem{
+		// an expression argument that turns NULL / a missing column into a value: every row of the group counts
+		{"SUM(CASE WHEN v IS NULL THEN 1 ELSE 0 END)", func(vs []any) any {
+			n := 0.0
+			for _, v := range vs {
+				if v == nil {
+					n++
+				}
+			}
+			return n
+		}},
 		{"SUM(v)", func(vs []any) any {
 			xs := govcAggNums(vs)
 			if len(xs) == 0 {
